@@ -68,19 +68,20 @@ def gen_xslt():
     facts["push_tracks_frame_index"] = bool(re.search(r"if\s*\(\s*m_currentStackFrameIndex\s*==\s*m_stack\.size\(\)\s*\)\s*\{\s*\+\+m_currentStackFrameIndex", b))
     b = body_of(vs, r"VariablesStack::popElementFrame\s*\(\s*\)\s*\{", "VariablesStack::popElementFrame")
     facts["pop_frame_throws_on_context_marker"] = bool(re.search(r"eContextMarker\s*\)\s*\{[^}]*throw\s+InvalidStackContextException", b))
-    # is deactivation of params (VariablesStack::resetParams) ever called? (finding K-C01-1)
+    # deactivation of params (VariablesStack::resetParams): never called in the tree with finding K-C01-1;
+    # the repair calls it from popElementFrame when the popped frame belongs to a template instance
+    facts["params_reset_when_template_frame_popped"] = bool(re.search(r"ELEMNAME_TEMPLATE", b)) and bool(re.search(r"\bresetParams\s*\(", b))
     callers = 0
     for p in sorted(glob.glob(os.path.join(srcfacts.SRC, "XSLT", "*.cpp")) + glob.glob(os.path.join(srcfacts.SRC, "XSLT", "*.hpp"))):
+        txt = srcfacts.strip_comments(open(p, encoding="utf-8", errors="replace").read())
         if os.path.basename(p) in ("VariablesStack.cpp", "VariablesStack.hpp"):
-            txt = srcfacts.strip_comments(open(p, encoding="utf-8", errors="replace").read())
-            # a call from another member function of the class itself also counts
             txt = re.sub(r"VariablesStack::resetParams\s*\(\s*\)\s*\{", " ", txt)
             txt = re.sub(r"void\s+resetParams\s*\(\s*\)\s*;", " ", txt)
+            txt = txt.replace(b, " ")      # the call inside popElementFrame is the modelled variant
             callers += len(re.findall(r"\bresetParams\s*\(", txt))
-            continue
-        txt = srcfacts.strip_comments(open(p, encoding="utf-8", errors="replace").read())
-        callers += len(re.findall(r"\b(resetParams|deactivate)\s*\(", txt))
-    facts["params_are_deactivated_somewhere"] = callers > 0
+        else:
+            callers += len(re.findall(r"\b(resetParams|deactivate)\s*\(", txt))
+    facts["params_deactivated_elsewhere"] = callers > 0
     te = srcfacts.strip_comments(srcfacts.read("XSLT/ElemTemplateElement.cpp"))
     b1 = body_of(te, r"ElemTemplateElement::beginExecuteChildren\s*\([^)]*\)\s*const\s*\{", "beginExecuteChildren")
     b2 = body_of(te, r"ElemTemplateElement::endExecuteChildren\s*\([^)]*\)\s*const\s*\{", "endExecuteChildren")
@@ -104,6 +105,14 @@ def gen_xslt():
     b = body_of(pa, r"ElemParam::startElement\s*\([^)]*\)\s*const\s*\{", "ElemParam::startElement")
     facts["param_default_only_when_not_passed"] = bool(re.search(r"getParamVariable\s*\(\s*\*m_qname\s*\)", b)) and \
         bool(re.search(r"if\s*\(\s*obj\.null\(\)\s*==\s*true\s*\)\s*\{\s*return\s+ElemVariable::startElement", b))
+
+    co = srcfacts.strip_comments(srcfacts.read("XSLT/ElemCopyOf.cpp"))
+    b = body_of(co, r"ElemCopyOf::startElement\s*\([^)]*\)\s*const\s*\{", "ElemCopyOf::startElement")
+    facts["copy_of_skips_empty_string"] = bool(re.search(r"empty\s*\(\s*\)\s*==\s*false\s*\)\s*\{\s*executionContext\.characters\s*\(\s*value\s*\)", b))
+    vo = srcfacts.strip_comments(srcfacts.read("XSLT/ElemValueOf.cpp"))
+    b = body_of(vo, r"ElemValueOf::startElement\s*\([^)]*\)\s*const\s*\{", "ElemValueOf::startElement")
+    m = srcfacts.need(r"if\s*\(\s*m_selectPattern\s*==\s*0\s*\)\s*\{(.*?)executionContext\.characters\s*\(\s*\*sourceNode\s*\)", b, "select-less branch of ElemValueOf::startElement")
+    facts["value_of_dot_skips_empty_string"] = bool(re.search(r"empty\s*\(\s*\)", m.group(1)))
 
     order = sorted(facts)
     text = "(* generated by translator/gen_xslt.py from src/xalanc/XSLT/{XSLTEngineImpl,ElemAttribute,VariablesStack,\n" \
